@@ -13,7 +13,7 @@ META = {
               "in every state (ref 0..2, held message or not, last activity, clock, session_timeout 0..600 s, never-established).",
     "outside": "the uthash table itself (SESSIONS_FIND/ADD inside coap_endpoint_get_session: third-party macros, not encoded - the 1:1 "
                "claim rests on key injectivity); "
-               "coap_free_context_lkd teardown with leak checking; holders' reference pairing is decided in C06/C07/C11 jobs (which run with "
+               "coap_free_context_lkd teardown beyond the B1 shapes (one client session with async/queued/held messages; one endpoint with one idle server session and a pending async entry); holders' reference pairing is decided in C06/C07/C11 jobs (which run with "
                "coap_session_free replaced by a failing stub)",
     "assumptions": ["IPv4 sockaddr padding (sin_zero) is zero in both packets (the kernel zero-fills it)",
                     "coap_session_free replaced by a recording stub; uthash iteration follows hh.next (hand-linked single session)"],
@@ -42,4 +42,10 @@ def jobs():
                       flags=FS + ["--memory-leak-check"], group="B1-teardown", est_gb=4, timeout=1500,
                       desc="coap_free_context_lkd with one client session (async entry %d, queued CON %d, held CON %d): all released, once" % (a, q, h),
                       bounds={"sessions": 1, "async": a, "queued": q, "held": h}))
+    for a in (1, 0):
+        js.append(Job("B1-teardown-server@async%d" % a, "C12/c12b.c", "c12_b1_teardown_server", UNITS, extra_src=EXTRA,
+                      defines=cutb + ["WITH_SRV_ASYNC=%d" % a], remove_bodies=rbb, unwind=40,
+                      flags=FS + ["--memory-leak-check"], group="B1-teardown-server", est_gb=4, timeout=1500,
+                      desc="coap_free_context_lkd with one endpoint and one idle server session (pending async entry %d): one SESSION_DEL, all released" % a,
+                      bounds={"endpoints": 1, "server_sessions": 1, "async": a}))
     return js
